@@ -331,8 +331,13 @@ class Result:
         return 0
 
 
+CURRENT = {}   # seed and tier of the running check (set by ./check); stored in every replay file
+
+
 def save_replay(workdir, name, obj):
     """Stores a failing case under .work/replays (kept until the next run of the same check)."""
+    if isinstance(obj, dict):
+        obj = dict(obj, **{k: v for k, v in CURRENT.items() if k not in obj})
     d = os.path.join(WORK, "replays")
     os.makedirs(d, exist_ok=True)
     p = os.path.join(d, name)
